@@ -173,7 +173,16 @@ def r_ordered(prog, tier):
         elif isinstance(v, ast.Name) and _sorted_in_place_before(f, v.id, r):
             kinds.append('sorted')
         elif isinstance(v, ast.Name):
-            kinds.append('unsorted-name')
+            dvs = [d_ for (_, d_) in name_defs(f, v.id)]
+            sorts_somewhere = any(isinstance(x, ast.Call) and (unparse(x.func) == 'sorted' or unparse(x.func).endswith('.sort'))
+                                  for x in walk_own(f.node))
+            if dvs and all(isinstance(d_, ast.AST) and (_num_sorted(d_, f) or (isinstance(d_, ast.List) and len(d_.elts) == 1))
+                           for d_ in dvs) and any(isinstance(d_, ast.AST) and _num_sorted(d_, f) for d_ in dvs):
+                kinds.append('sorted')
+            elif sorts_somewhere:
+                kinds.append('?')
+            else:
+                kinds.append('unsorted-name')
         elif v is not None and any(isinstance(x, ast.Attribute) and x.attr == 'children' and unparse(x.value) == P
                                    for x in ast.walk(v)) and not any(
                 isinstance(x, ast.Call) and isinstance(x.func, ast.Name) and x.func.id == 'sorted' for x in ast.walk(v)):
@@ -267,6 +276,20 @@ def r_ordered(prog, tier):
         for n in walk_own(f.node):
             if isinstance(n, ast.Call) and prog.callee(n, f) == ('trees', 'children'):
                 ncalls += 1
+            if isinstance(n, ast.Call) and prog.callee(n, f) == ('trees', 'unordered_terminals') and f.fq != 'trees.unordered_terminals':
+                # the tokens in storage order: a position in that list means nothing
+                par = parents.get(n)
+                ctx = _raw_context(n, par, parents)
+                if ctx is not None and ctx[0] == 'alias':
+                    ctx = _alias_uses(f, ctx[1], parents)
+                if ctx is not None:
+                    okx, whyx = ctx[0], ctx[1].replace('stored child list', 'token list in storage order').replace(
+                        'stored child order', 'storage order')
+                    if okx is False and not (isinstance(par, ast.Subscript) or 'indexing' in whyx):
+                        okx = None          # loops and calls: whether the order shows is not decided here
+                    obs.append(Ob('R-ORDERED/RAW', f.fq, 'the storage order of the tokens is not observed: `%s`'
+                                  % unparse(par if par is not None else n)[:80], okx, whyx,
+                                  construct='unordered:' + unparse(par if par is not None else n)[:80], line=n.lineno))
             if not (isinstance(n, ast.Attribute) and n.attr == 'children'):
                 continue
             if isinstance(n.value, ast.Name) and n.value.id in f.module.aliases \
@@ -278,6 +301,13 @@ def r_ordered(prog, tier):
                 continue
             if ctx[0] == 'alias':
                 ctx = _alias_uses(f, ctx[1], parents)
+            if ctx[0] is False and isinstance(par, ast.Call) and n in par.args and not par.keywords \
+                    and not any(isinstance(a_, ast.Starred) for a_ in par.args):
+                # handed to a function of the package: what that function does with its parameter decides
+                c_ = prog.callee(par, f)
+                h_ = prog.func(c_[0], c_[1], required=False) if c_ else None
+                if h_ is not None and h_.fq != f.fq:
+                    ctx = _param_uses(h_, par.args.index(n), ctx)
             ok = ctx[0]
             why = ctx[1]
             if not ok:
@@ -308,6 +338,37 @@ def r_ordered(prog, tier):
                           construct='raw:' + unparse(par if par is not None else n),
                           line=n.lineno, nontrivial=not ok or 'order' in why))
     return obs, {'ordered_accessor_call_sites': ncalls}
+
+
+def _param_uses(h, idx, dflt):
+    """The stored child list arrives in parameter number idx of package function h: judge every use of it there."""
+    a = h.node.args
+    if a.vararg or a.kwarg or a.posonlyargs or idx >= len(a.args):
+        return (None, 'the stored child list is passed to %s() in a way this rule does not follow' % h.node.name)
+    nm = a.args[idx].arg
+    parents = {}
+    for n in ast.walk(h.node):
+        for c in ast.iter_child_nodes(n):
+            parents[c] = n
+    if any(isinstance(x, ast.Name) and x.id == nm and not isinstance(x.ctx, ast.Load) for x in ast.walk(h.node)):
+        return (None, 'parameter `%s` of %s() is re-bound' % (nm, h.node.name))
+    worst = (True, 'passed to %s(), which uses it only in order-insensitive ways' % h.node.name)
+    for x in ast.walk(h.node):
+        if isinstance(x, ast.Name) and x.id == nm and isinstance(x.ctx, ast.Load):
+            par = parents.get(x)
+            if isinstance(par, ast.Subscript) and par.value is x and isinstance(parents.get(par), ast.Expr):
+                continue            # `nodes[k]` as a statement: only whether the element exists matters
+            c = _raw_context(x, par, parents)
+            if c is None:
+                return (None, '%s() changes the list it is handed' % h.node.name)
+            if c[0] == 'alias' or c[0] is None:
+                worst = (None, '%s() passes the list on' % h.node.name)
+            elif c[0] is False:
+                if isinstance(par, ast.Call):
+                    worst = (None, '%s() passes the list on to %s()' % (h.node.name, unparse(par.func)))
+                else:
+                    return (False, 'stored child list passed to %s(), where: %s' % (h.node.name, c[1]))
+    return worst
 
 
 def _alias_uses(f, assign, parents):
@@ -392,7 +453,7 @@ def _order_sensitive(loop, listtxt, prog=None, f=None):
 
 def _raw_context(n, par, parents):
     """(ok, why) for a use of `<X>.children`, or None if it is a structural event handled by R-LINK."""
-    if isinstance(n.ctx, (ast.Store, ast.Del)):
+    if isinstance(getattr(n, 'ctx', None), (ast.Store, ast.Del)):
         return None
     if isinstance(par, ast.Attribute) and par.value is n:
         if par.attr in ('append', 'remove', 'insert', 'extend'):
@@ -451,7 +512,7 @@ def r_levels(prog, tier):
                 and isinstance(n.ast.value.func, ast.Attribute) and n.ast.value.func.attr in ('append', 'setdefault'):
             stores.append(n)
     if not stores:
-        raise Unrecognised('trees.levels records nothing in a way this rule recognises')
+        raise Unrecognised('trees.levels records nothing in a way this rule recognises', partial=obs)
     for n in stores:
         facts = [x[0] for x in facts_at(cfg, n.id)]
         g = any(fa[0] == 'opaque' and fa[1].startswith('has_children(') and fa[2] is True for fa in facts) or \
@@ -583,7 +644,7 @@ def r_expnum(prog, tier):
     loop_stores = [n for n in stores if n.loops]
     root_stores = [n for n in stores if not n.loops]
     if not loop_stores:
-        raise Unrecognised('compute_export_numbering assigns no numbers in a loop')
+        raise Unrecognised('compute_export_numbering assigns no numbers in a loop', partial=obs)
     all_calls = [x for x in ast.walk(f.node) if isinstance(x, ast.Call)]
     any_leftmost_sort = any(_is_leftmost_sorted(prog, f, c) for c in all_calls)
     any_reverse = any(_kw(c, 'reverse') is not None for c in all_calls if isinstance(c.func, ast.Name) and c.func.id == 'sorted')
